@@ -12,6 +12,7 @@ def run(ctx):
     ctx.tlc_mc("Fkey.tla", "Fkey_quick.cfg", timeout=600)
     if ctx.thorough():
         ctx.tlc_mc("Fkey.tla", "Fkey_thorough.cfg", timeout=2400)
-    dbcommon.run_db(ctx, "trigpairs", 60 if ctx.thorough() else 5, "C44p")
-    dbcommon.run_db(ctx, "trig", 24 if ctx.thorough() else 1, "C44c")
+    for k in range(4 if ctx.thorough() else 1):
+        dbcommon.run_db(ctx, "trigpairs", 60 if ctx.thorough() else 5, "C44p" + "x" * k)
+        dbcommon.run_db(ctx, "trig", 24 if ctx.thorough() else 1, "C44c" + "x" * k)
     ctx.assumptions += dbcommon.ASSUME
